@@ -236,9 +236,21 @@ def _list_buildoptions(coredata: cdata.CoreData, subprojects: T.Optional[T.List[
                 for s in subprojects:
                     core_options[k.evolve(subproject=s)] = v
 
-    def add_keys(opts: T.Union[options.MutableKeyedOptionDictType, options.OptionStore], section: str) -> None:
+    # Per-subproject overrides of global options ("-Dsub:warning_level=3") are
+    # stored as augments of the global option object. List them next to it.
+    augments: T.Dict[OptionKey, options.ElementaryOptionValues] = dict(coredata.optstore.augments)
+
+    def add_keys(opts: T.Union[options.MutableKeyedOptionDictType, options.OptionStore], section: str,
+                 values: T.Optional[T.Dict[OptionKey, options.ElementaryOptionValues]] = None) -> None:
+        opts = dict(opts)
+        values = dict(values or {})
+        for akey, avalue in augments.items():
+            parent = akey.evolve(subproject=None)
+            if parent in opts and akey not in opts:
+                opts[akey] = opts[parent]
+                values[akey] = avalue
         for key, opt in sorted(opts.items()):
-            optdict = {'name': str(key), 'value': opt.value, 'section': section,
+            optdict = {'name': str(key), 'value': values.get(key, opt.value), 'section': section,
                        'machine': key.machine.get_lower_case_name() if coredata.optstore.is_per_machine_option(key) else 'any'}
             if isinstance(opt, options.UserStringOption):
                 typestr = 'string'
@@ -282,8 +294,11 @@ def _list_buildoptions(coredata: cdata.CoreData, subprojects: T.Optional[T.List[
             return key.evolve(subproject=None)
         return key
 
+    # A yielding subproject option has the value of the parent project's option
     add_keys({project_option_key_to_introname(k): v
-              for k, v in coredata.optstore.items() if coredata.optstore.is_project_option(k)}, 'user')
+              for k, v in coredata.optstore.items() if coredata.optstore.is_project_option(k)}, 'user',
+             {project_option_key_to_introname(k): coredata.optstore.get_value_for(k)
+              for k, v in coredata.optstore.items() if coredata.optstore.is_project_option(k) and v.yielding})
     add_keys(test_options, 'test')
     return optlist
 
